@@ -34,7 +34,7 @@ func c18Sizes(tier string) (enumUnits, regexUnits, per int) {
 	if tier == "thorough" {
 		return 1600, 1600, 150
 	}
-	return 80, 80, 40
+	return 320, 320, 40
 }
 
 // ---- enum -------------------------------------------------------------------------
